@@ -754,7 +754,7 @@ def run_scenario(sc: dict, watch_factory=None, keep_world=False):
         elif kind == 'cancel_all':
             # what asyncio.run() does at exit: cancel every task
             w.rec('cancel', 'ALL', f'inj{k}')
-            w.final['cancel_all_tasks'] = [t for t in asyncio.all_tasks(loop) if not t.done()]
+            w.final['cancel_all_tasks'] = [t for t in loop.tasks_in_creation_order() if not t.done()]
             for t in w.final['cancel_all_tasks']:
                 t.cancel()
 
